@@ -134,4 +134,29 @@ PROPS["C07"] = {
     "level_note": "Trusted: Coq kernel/vm_compute; Model/Wavelet.v and Model/Convolve.v validated on explored cases; table translator; exact arithmetic (float rounding of the running filters not modelled).",
 }
 
+PROPS["C16"] = {
+    "corr": "Model.MeanVar.{mvw_step,mve_step} vs mean::mean_variance::MeanVariance::filter and mean::exp::mean_variance::MeanVariance::filter (paired runs on x and x+c)",
+    "rule": "MeanVariance<Rat,N> for N=1..4 and exponential MeanVariance<Rat> with gains {0,1/4,1/2,3/4,1}: all histories over {-1,0,2} of the tier's length, each run on the samples and on the samples shifted by an offset from {10,-7/2,0}; seeded random histories, widths {1,2,3,4,5,8}, gains k/8 and random offsets; non-trivial = at least 3 samples, not constant, non-zero offset (Check/C16.v)",
+    "trusted": _RAT, "assumptions": ["N >= 1", "exponential non-negativity: gain in [0,1]"],
+    "level_text": "Theorems for all widths/gains and histories: the mean output is exactly the corresponding mean filter's output; the variance is never negative and is zero for constant signals; the exponential filter's variance is exactly offset-invariant for every gain. For the sliding-window filter offset invariance is REFUTED by a machine-checked witness (it measures the deviation from the running sum) -- known finding -- and proved outside the recorded class (width 1; first two outputs of any width).",
+    "level_note": "Trusted: Coq kernel/vm_compute; Model/MeanVar.v validated on explored cases. Known finding (KNOWN_FINDINGS.txt): offset clause of the sliding-window filter for N >= 2 at output index >= 2; a failing case counts as the known finding only if it lies in that class AND the implementation's outputs equal the defective model's; anything else is a VIOLATION.",
+}
+PROPS["C18"] = {
+    "corr": "Model.Hampel.hampel_step vs hampel::Hampel<f64,N>/<f32,N>::filter on integer samples with a logged decision margin",
+    "rule": "Hampel<f64,N> (alphabet {0,1,3,50}) and Hampel<f32,N> (alphabet {0,2,40}) for N=1..5, thresholds {0,1/2,1,2,3}: all sequences of the tier's length; seeded random sequences with plateaus and injected outliers for N=1..9; cases in which a float comparison feeding the decision is within 1e-6 (f64) / 1e-3 (f32) of its boundary are skipped and counted (both readings of the window maximum are considered); non-trivial = sequence longer than the window and at least one sample replaced (Check/C18.v)",
+    "trusted": ["floats: integer samples and dyadic thresholds, decision margin enforced by the harness, so float decisions coincide with the exact-arithmetic model; outputs must be integers", "factor 1.4826 = 14826/10000"],
+    "assumptions": ["N >= 1", "threshold >= 0"],
+    "level_text": "Theorems (on top of the median-filter invariant) for every width N>=1, threshold >= 0 and history over canonical rationals: the first sample is returned unchanged; every output is the sample or the lower median of the preceding window; a sample within threshold*1.4826*(median - window minimum) is passed; a sample farther than threshold*1.4826*(largest window deviation) is replaced by the median, in particular any sample differing from a constant window. The proofs use only that max() returns some window element, so they are independent of finding C17.",
+    "level_note": "Trusted: Coq kernel/vm_compute; Model/Hampel.v over Qc on top of Model/Median.v, validated on explored cases; float rounding excluded by the margin rule.",
+}
+
+PROPS["C01"] = {
+    "corr": "Model.Pipes.{pfilter,psource,psink,pfinalize} instantiated with the models of the probe stages vs the real signalo_pipes::Pipe / UnitPipe / `|` nestings (outputs, per-stage invocation log, finalize result)",
+    "rule": "every binary nesting of k = 1..5 stages (1+1+2+5+14 shapes; k <= 6 thorough), each as built by Pipe::new, entirely by `|`, and with randomly sprinkled UnitPipe wrappers and `|`; as a filter, as a source (first stage FromIter with 0..6 items, 3 pulls past the end) and as a sink (last stage Integrate/Max/Collect sink, finalized); stages drawn from Integrate, Differentiate, Delay<2>, 2x+1, each wrapped in a probe that appends (stage id, input) to a shared log; random i64 inputs; non-trivial = at least 3 stages and 2 samples (Check/C01.v)",
+    "trusted": ["boxing glue harness/src/dynpipe.rs (boxed stages between the real Pipe/UnitPipe layers) and the logging probes", "homogeneous sample type i64 (that stage types line up in a real pipe is enforced by rustc)", "Check/C01.v's models of the four probe filters, the source and the three sinks"],
+    "assumptions": [],
+    "level_text": "Theorems for ALL stage behaviours (abstract step functions threading an observable world), all nestings of Pipe, `|` and UnitPipe of any depth and any number of stages, all inputs: a pipe used as a filter equals the left-to-right chain of its stages, invoking each exactly once per sample in order, with the same tree shape and only the stage states changed; as a source it pulls the first stage once and on the end marker invokes no later stage and changes nothing else; as a sink all but the last stage filter and the last sinks; finalize is the last stage's; any two assemblies with the same stage sequence behave identically. By structural induction on the pipe tree.",
+    "level_note": "Trusted: Coq kernel/vm_compute; Model/Pipes.v validated on explored shapes; boxing glue; type-level facts are rustc's.",
+}
+
 NOT_YET = {}
